@@ -22,7 +22,7 @@ use std::time::Duration;
 
 pub const CLI: &str = "/verif/target/cli/debug/gamedig_cli";
 
-const CLASSES: [(&str, &str); 8] = [
+const CLASSES: [(&str, &str); 9] = [
     ("plain", "Plain"),
     ("markup", "<b>&amp;\"'</b> ]]> <!--"),
     ("control", "ctl\u{1}\u{7}\u{1f}\u{7f}x"),
@@ -30,6 +30,8 @@ const CLASSES: [(&str, &str); 8] = [
     ("control-edges", "e\u{8}\t\u{b}\u{c}\u{e}\u{84}\u{85}\u{86}\u{9f}\u{a0}x"),
     // line ends: a parser normalises literal CR, CR LF, NEL and LINE SEPARATOR to LF, so they must be written as references
     ("line-ends", "l\r1\r\n2\n3\u{85}4\u{2028}5\r"),
+    // LINE SEPARATOR on its own: not a control character, not markup, yet not preserved by a parser if written literally
+    ("line-separator-only", "Line\u{2028}Separator"),
     ("non-ascii", "Zürich 東京 𝄞"),
     ("space", " two  words "),
     ("empty", ""),
